@@ -30,6 +30,7 @@ KINDS = [
     ('and', 'N', ('N', 'N')), ('or', 'N', ('N', 'N')), ('in', 'N', ('N', 'C')), ('notin', 'N', ('N', 'C')),
     ('neg', 'N', ('N',)), ('not', 'N', ('N',)), ('if', 'N', ('N', 'N', 'N')),            # (then, cond, else) in source order
     ('call0', 'N', ()), ('call1', 'N', ('N',)), ('call2', 'N', ('N', 'N')), ('call3', 'N', ('N', 'N', 'N')),
+    ('call2c', 'N', ('N', 'N')), ('meth2c', 'N', ('N', 'N')), ('pipe2c', 'N', ('N', 'N')), ('pipe3c', 'N', ('N', 'N', 'N')),
     ('ucall1', 'N', ('N',)), ('ucall2', 'N', ('N', 'N')), ('umeth1', 'N', ('N',)), ('gt', 'N', ('N', 'N')),
     ('meth1', 'N', ('N',)), ('meth2', 'N', ('N', 'N')), ('pipe1', 'N', ('N',)), ('pipe2', 'N', ('N', 'N')),
     ('list1', 'C', ('N',)), ('list2', 'C', ('N', 'N')), ('dict1', 'N', ('N', 'N')), ('dict2', 'N', ('N', 'N', 'N', 'N')),
@@ -94,6 +95,14 @@ def render(sh, ctr, lab=None):
         return f'(-{c[0]})'
     if k == 'not':
         return f'(not {c[0]})'
+    if k == 'call2c':
+        return 'h(' + ', '.join(c) + ',)'
+    if k == 'meth2c':
+        return f'(({c[0]}).h({c[1]},))'
+    if k == 'pipe2c':
+        return f'(({c[0]}) | h({c[1]},))'
+    if k == 'pipe3c':
+        return f'(({c[0]}) | h({c[1]}, {c[2]},))'
     if k.startswith('call'):
         return 'h(' + ', '.join(c) + ')'
     if k.startswith('ucall'):
